@@ -610,6 +610,12 @@ def build_phase(node, ctx, htf, plug_map=None):
       p = p.with_plugs(**{argname: plug_map[idx]})
     else:
       p = htf.plugs.plug(update_kwargs=bool(upd), **{argname: plug_map[idx]})(p)
+  if node.get('shadow_args'):
+    # with_args() under the names of the phase's plug arguments (e.g. applied to a whole sequence in which another phase
+    # takes that name as a plain argument): the docstring of PhaseDescriptor.__call__ says plugs override extra_kwargs
+    names = [spec[0] for spec in (node.get('plugs') or []) if (spec[2] if len(spec) > 2 else True)]
+    if names:
+      p = p.with_args(**{a: 'shadowed-by-with_args' for a in names})
   if node.get('monitored'):
     # the phase (with the plugs it requests) is wrapped by a monitor, as in openhtf.core.monitors' documented usage
     from openhtf.core import monitors as _monitors  # pylint: disable=g-import-not-at-top
@@ -656,6 +662,9 @@ def make_plug_classes(specs, ctx, htf):
         raise PlugBoom('ctor of plug %d' % i)
       self.serial = ctx.next_serial()
       ctx.log('plug-ctor-ok', i, self.serial)
+      if sp.get('td_kind') == 'instance':
+        # tearDown bound on the instance (e.g. forwarded to a wrapped driver's close()); the class has none of its own
+        self.tearDown = functools.partial(type(self).vf_teardown_fn, self)
 
     def tearDown(self, i=i, sp=sp):
       ctx.log('plug-td', i, getattr(self, 'serial', None))
@@ -666,7 +675,10 @@ def make_plug_classes(specs, ctx, htf):
           time.sleep(0.0005)
 
     td_attr = _CallableTearDown(tearDown) if sp.get('td_kind') == 'callable' else tearDown
-    cls = type('Plug%d_%d' % (i, uid), (base,), {'__init__': __init__, 'tearDown': td_attr, 'vf_index': i})
+    attrs = {'__init__': __init__, 'tearDown': td_attr, 'vf_index': i, 'vf_teardown_fn': staticmethod(tearDown)}
+    if sp.get('td_kind') == 'instance' and base is htf.plugs.BasePlug:
+      del attrs['tearDown']
+    cls = type('Plug%d_%d' % (i, uid), (base,), attrs)
     classes.append(cls)
   ctx.plug_classes = classes
   return classes
